@@ -131,7 +131,7 @@ def coq_sopts(o):
 
 
 CORR_HEADER_EXTRA = (
-    "From V Require Import Model.Serialize Model.SchemaReparse.\n"
+    "From V Require Import Model.Serialize.\n"
     "Definition O (p i s c : bool) (n : option nat) : sopts :=\n"
     "  {| o_pretty := p; o_incl := i; o_sort_keys := s; o_indent := n; o_compact := c |}.\n"
     "Definition SL (os : list sopts) (r : request) : string :=\n"
